@@ -7,7 +7,8 @@
 From Coq Require Import List Arith NArith Bool.
 From V.gen Require ConnExits.
 From V.Mgr Require Import Model Caps.
-From V.C07 Require Import Model Proofs Compose.
+From V.Ts Require Import Report ReportProofs.
+From V.C07 Require Import Model Proofs Compose Block BlockProofs.
 Import ListNotations.
 Open Scope N_scope.
 
@@ -151,19 +152,25 @@ Theorem C07_run_shape :
 Proof. exact crun_shape. Qed.
 Print Assumptions C07_run_shape.
 
-(* From accept to the end: every protocol is told established exactly once and first; at the end
-   the manager and every protocol still running are told closed exactly once; whoever is told closed
-   was told established. *)
+(* From accept to the end, with any protocols having exited before or during the connection: every
+   protocol that runs at accept is told established exactly once and first; at the end the manager and
+   every protocol still running are told closed exactly once; whoever is told closed was told established. *)
 Theorem C07_lifecycle :
-  forall al mup mask es t' ns,
-  all_alive al = true -> conn_run al mup mask es = (Some t', ns) -> gone t' <> None ->
-  (exists rest, ns = map NEst (seq 0 (length al)) ++ rest /\ (forall i, cnt (is_est_of i) rest = 0%nat)) /\
-  (forall i, (i < length al)%nat -> cnt (is_est_of i) ns = 1%nat) /\
+  forall al mup es t' ns,
+  conn_run al mup es = (Some t', ns) -> gone t' <> None ->
+  (exists rest, ns = map NEst (alive_idx 0 al) ++ rest /\ (forall i, cnt (is_est_of i) rest = 0%nat)) /\
+  (forall i, cnt (is_est_of i) ns = if nth i al false then 1%nat else 0%nat) /\
   cnt is_mgr_closed ns = (if mgr_up t' then 1%nat else 0%nat) /\
   (forall i, cnt (is_closed_of i) ns = if nth i (alive t') false then 1%nat else 0%nat) /\
-  (forall i, nth i (alive t') false = true -> (i < length al)%nat).
+  (forall i, nth i (alive t') false = true -> nth i al false = true).
 Proof. exact lifecycle. Qed.
 Print Assumptions C07_lifecycle.
+
+(* ... and the connection is always started: no history of protocol exits makes accept fail. *)
+Theorem C07_connection_always_started :
+  forall al mup es, exists t' ns, conn_run al mup es = (Some t', ns).
+Proof. exact conn_run_started. Qed.
+Print Assumptions C07_connection_always_started.
 
 (* The shutdown of one protocol does not end the connection: the loop ends only on a termination
    cause (remote close / failure, force-close, nobody keeps the connection open) ... *)
@@ -194,30 +201,25 @@ Theorem C07_dead_protocol_ignored :
 Proof. exact dead_protocol_ignored. Qed.
 Print Assumptions C07_dead_protocol_ignored.
 
-(* New connections: with every protocol running, accept tells each of them once and starts the loop. *)
-Theorem C07_accept_all_alive :
-  forall al mup mask, all_alive al = true ->
-  accept al mup mask = (Some (mkTask al mup None), map NEst (seq 0 (length al))).
-Proof. exact accept_all_alive. Qed.
-Print Assumptions C07_accept_all_alive.
+(* New connections: accept tells every protocol that still runs exactly once, skips the ones that have
+   exited, and starts the loop — the shutdown of one protocol does not prevent the others from being told
+   about new connections (F-C07b, repaired by the `fix:` commit in protocol_set.rs). *)
+Theorem C07_accept_serves_live :
+  forall al mup, accept al mup = (Some (mkTask al mup None), map NEst (alive_idx 0 al)).
+Proof. exact accept_spec. Qed.
+Print Assumptions C07_accept_serves_live.
 
-(* Known finding F-C07b (class 1): once one protocol has exited, accept fails for every new
-   connection — the remaining protocols are not all told, no event loop is started (the manager rolls
-   the connection back) and the protocols that were told established are never told closed. *)
-Theorem C07_accept_dead_refuted :
-  exists al mask, existsb (fun b => b) al = true /\
-  fst (accept al true mask) = None /\
-  In (NEst 0) (snd (accept al true mask)) /\ ~ In (NEst 2) (snd (accept al true mask)) /\
-  cnt is_close_note (snd (accept al true mask)) = 0%nat.
-Proof. exact accept_dead_refuted. Qed.
-Print Assumptions C07_accept_dead_refuted.
+Theorem C07_accept_each_once :
+  forall al i, cnt (is_est_of i) (map NEst (alive_idx 0 al)) = if nth i al false then 1%nat else 0%nat.
+Proof. intros al i. apply cnt_est_alive. Qed.
+Print Assumptions C07_accept_each_once.
 
-Theorem C07_accept_dead_class :
-  forall al mup mask, all_alive al = false ->
-  fst (accept al mup mask) = None /\
-  forall x, In x (snd (accept al mup mask)) -> exists i, x = NEst i /\ nth i al false = true.
-Proof. exact accept_dead. Qed.
-Print Assumptions C07_accept_dead_class.
+(* F-C07b as it was: with one dead receiver the accept failed (after serving some of the others). *)
+Theorem C07_unfixed_accept_refuted :
+  fst (accept_unfixed [true; false; true] true [0%nat]) = None /\
+  accept [true; false; true] true = (Some (mkTask [true; false; true] true None), [NEst 0; NEst 2]).
+Proof. exact unfixed_accept_refused. Qed.
+Print Assumptions C07_unfixed_accept_refuted.
 
 (* F-C07a (repaired by the `fix:` commit): the loop as it was left without a word when a substream
    was negotiated for a protocol that had exited; the repaired loop carries on. *)
@@ -276,8 +278,9 @@ Theorem C07_closed_then_dialable :
 Proof. exact closed_then_dialable. Qed.
 Print Assumptions C07_closed_then_dialable.
 
-(* F-C07b on the manager side: when an accept fails (possible only after a protocol has exited), the
-   rollback can remove the last connection of a peer the application was told about, silently. *)
+(* If an accept future fails, the manager's rollback can remove the last connection of a peer the
+   application was told about, silently (the `connection_closed` flag of the rollback is discarded). Before
+   the repair of F-C07b this was reachable; now no accept future of a node fails (next theorem). *)
 Theorem C07_rollback_silent_refuted :
   let L := mkLimits None None [TCP; WS] in
   let es := [TrEstablished 5 0 TCP true false; AcceptDone 0 true; TrEstablished 5 1 WS true false;
@@ -302,15 +305,110 @@ Theorem C07_node_feeds_manager :
 Proof. exact node_run_inv. Qed.
 Print Assumptions C07_node_feeds_manager.
 
+(* No accept future of a node fails any more, whichever protocols have exited: the manager never takes
+   its rollback branch for a connection of the TCP / WebSocket / QUIC transports. *)
+Theorem C07_node_no_rollback :
+  forall L es nd c ok, In (AcceptDone c ok) (snd (snd (node_run L nd es))) -> ok = true.
+Proof. exact node_run_no_rollback. Qed.
+Print Assumptions C07_node_no_rollback.
+
 Theorem C07_node_init : forall L n, NodeInv L (node_init n) [] [].
 Proof. exact node_inv_init. Qed.
 Print Assumptions C07_node_init.
+
+(* ---------------------------------------------------------------------------------------- *)
+(* part 3: back-pressure — the reports are `send(..).await` on bounded channels shared by all   *)
+(* connections (coq/C07/Block.v over coq/Ts/Report.v); every schedule of loop events, protocol   *)
+(* receives, protocol exits and scheduler polls                                                  *)
+
+(* The invariant of the composed system holds initially and along every schedule. *)
+Theorem C07_block_invariant :
+  forall me n cap es, Binv me (fst (brun (binit n cap) es)).
+Proof. intros me n cap es. apply binv_run, binv_init. Qed.
+Print Assumptions C07_block_invariant.
+
+(* Exactly-once survives blocking: whatever the schedule, from whatever state, the manager is told
+   at most once that a connection is closed. *)
+Theorem C07_block_manager_told_once :
+  forall me es s, (cnt_out (is_mgr me) (snd (brun s es)) <= 1)%nat.
+Proof. intros me es s. apply mgr_once_from. Qed.
+Print Assumptions C07_block_manager_told_once.
+
+(* Protocols before the manager, also when sends have to wait: when the manager is told, no send of the
+   connection is waiting any more and every protocol still running has the closed notice in its channel. *)
+Theorem C07_block_told_after_protocols :
+  forall me s e, Binv me s -> In (OMgrClosed me) (snd (bstep s e)) ->
+  let s' := fst (bstep s e) in
+  busy_in me (s_ch s') = false /\
+  exists bc, find_c me (s_conns s') = Some bc /\ b_ph bc = PDone /\
+    forall p, nth p (alive (b_task bc)) false = true -> In (IClosed me) (racc_at (s_ch s') p).
+Proof. exact told_after_protocols. Qed.
+Print Assumptions C07_block_told_after_protocols.
+
+(* Every protocol channel carries the closed notice of a connection at most once, and not at all while
+   the connection runs. *)
+Theorem C07_block_closed_once_per_channel :
+  forall me s p, Binv me s ->
+  (cntc me (racc_at (s_ch s) p) <= 1)%nat /\
+  ((forall bc, find_c me (s_conns s) = Some bc -> is_gone (b_task bc) = false) -> cntc me (racc_at (s_ch s) p) = 0%nat).
+Proof. intros me s p I. split; [apply (bi_c1 _ _ I)|intro H; now apply (bi_c0 _ _ I)]. Qed.
+Print Assumptions C07_block_closed_once_per_channel.
+
+(* Liveness under draining: from any reachable state, once every protocol has received what is queued
+   for it or waiting (the schedule `flush`), a parked report completes at the next poll: a parked closed
+   report tells the manager, a parked accept resolves, a parked substream report lets the loop go on. *)
+Theorem C07_block_parked_report_completes :
+  forall me s bc, Binv me s -> (1 <= s_cap s)%nat -> find_c me (s_conns s) = Some bc ->
+  let s1 := fst (brun s (flush s)) in
+  snd (brun s (flush s)) = [] /\
+  match b_ph bc with
+  | PWaitClosed => snd (bstep s1 (BResume me)) = [OMgrClosed me] /\
+                   ph_of me (fst (bstep s1 (BResume me))) = Some PDone
+  | PWaitEst => snd (bstep s1 (BResume me)) = [OAccepted me] /\
+                ph_of me (fst (bstep s1 (BResume me))) = Some PRun
+  | PWaitSub => ph_of me (fst (bstep s1 (BResume me))) = Some PRun
+  | _ => True
+  end.
+Proof. exact parked_report_completes. Qed.
+Print Assumptions C07_block_parked_report_completes.
+
+(* ... and every protocol that still runs has then received the closed notice exactly once. *)
+Theorem C07_block_delivered_exactly_once :
+  forall me s bc p ch, Binv me s -> (1 <= s_cap s)%nat ->
+  find_c me (s_conns s) = Some bc -> is_gone (b_task bc) = true ->
+  nth p (alive (b_task bc)) false = true -> nth p (s_alive s) false = true ->
+  nth_error (s_ch (fst (brun s (flush s)))) p = Some ch ->
+  cntc me (rdel ch) = 1%nat.
+Proof. exact delivered_exactly_once. Qed.
+Print Assumptions C07_block_delivered_exactly_once.
+
+(* Back-pressure is real, and it is all there is: while the protocol on whose channel a connection waits
+   neither receives nor exits, the connection keeps waiting and the manager is not told — under every
+   schedule of everything else (other connections, other protocols). A protocol that never drains its
+   channel therefore holds back the reports of every connection that has to tell it something; it does not
+   stop the manager loop, which never waits on a protocol channel. *)
+Theorem C07_block_waits_until_drained :
+  forall me p es s, forallb (leaves_alone p) es = true -> busy_at me (s_ch s) p = true ->
+  busy_at me (s_ch (fst (brun s es))) p = true /\ cnt_out (is_mgr me) (snd (brun s es)) = 0%nat.
+Proof. exact waits_until_drained. Qed.
+Print Assumptions C07_block_waits_until_drained.
+
+(* non-vacuity: two protocols with channels of capacity 1. Connection 0 is accepted; the accept of
+   connection 1 has to wait; connection 0 ends and its closed report has to wait too (the manager is not
+   told); once the protocols have received everything, both parked reports complete. *)
+Example C07_block_nonvacuous :
+  let s0 := binit 2 1 in
+  let r1 := brun s0 [BAccept 0; BAccept 1; BLoop 0 (EYamux YEof)] in
+  snd r1 = [OAccepted 0] /\
+  ph_of 1 (fst r1) = Some PWaitEst /\ ph_of 0 (fst r1) = Some PWaitClosed /\
+  snd (brun (fst r1) (flush (fst r1) ++ [BResume 0; BResume 1])) = [OMgrClosed 0; OAccepted 1].
+Proof. vm_compute. repeat split. Qed.
 
 (* non-vacuity: a node with three protocols; a connection is accepted, one protocol exits, a
    substream for it is dropped, the remote closes: the application sees established then closed *)
 Example C07_nonvacuous :
   let L := mkLimits None None [TCP; WS] in
-  let es := [NMgr AllocConn; NMgr (TrEstablished 7 0 TCP true false); NAccept 0 [];
+  let es := [NMgr AllocConn; NMgr (TrEstablished 7 0 TCP true false); NAccept 0;
              NProtoDie 1; NTask 0 (ENeg (NegOk 1 false)); NTask 0 (ENeg (NegOk 2 false));
              NTask 0 (EYamux YEof)] in
   node_env_trace L (node_init 3) [] [] es /\
